@@ -26,6 +26,7 @@ type downstream struct {
 	mu      sync.Mutex
 	calls   int64
 	outcome func(n int64) byte // by forwarded-call number
+	delay   func(n int64) time.Duration // how long the forwarded call takes (virtual time)
 	onEnter func()
 	onExit  func()
 }
@@ -38,6 +39,11 @@ func (d *downstream) handler(ctx context.Context, request []byte, next core.Next
 	o := d.outcome(n)
 	if d.onExit != nil {
 		defer d.onExit()
+	}
+	if d.delay != nil {
+		if dl := d.delay(n); dl > 0 {
+			time.Sleep(dl)
+		}
 	}
 	switch o {
 	case 'S':
@@ -166,7 +172,7 @@ func call(client *core.Client) callResult {
 func TestCheck(t *testing.T) {
 	r := h.Start(t, "C20")
 	defer r.Finish()
-	r.Meta("rule", "under virtual time the real CircuitBreaker is installed on a real core.Client in front of a scripted downstream handler. Exhaustive: every success/error/panic outcome sequence of the forwarded calls up to length 8 x threshold {0,1,2,5} x recovery regimes {effectively infinite, zero, finite with probes at recovery-1ns / recovery / recovery+1ns after the last failure, and virtual gaps between calls} x installation {IO handler only, whole plugin, plugin with mock service}; each call is compared with a reference state machine written from the property statement (consecutive-failure count kept as an interval after a recovery, so only verdicts valid for every admissible count are reported): rejected-while-closed, forwarded-while-open, wrong error identity, mock service used / not used, downstream invoked on a rejected call. Concurrent: 8 callers, histories of two-phase operations (admit, complete) recorded with a logical clock at the client boundary and checked with porcupine against the same machine (recovery infinite). distinct_nontrivial = distinct (threshold, regime, installation, outcome sequence) combinations + concurrent histories")
+	r.Meta("rule", "under virtual time the real CircuitBreaker is installed on a real core.Client in front of a scripted downstream handler. Exhaustive: every success/error/panic outcome sequence of the forwarded calls up to length 8 x threshold {0,1,2,5} x recovery regimes {effectively infinite, zero, finite with probes at recovery-1ns / recovery / recovery+1ns after the last failure, virtual gaps between calls, and forwarded calls that take 0..2.5 recovery times before they fail} x installation {IO handler only, whole plugin, plugin with mock service}; each call is compared with a reference state machine written from the property statement (consecutive-failure count kept as an interval after a recovery, so only verdicts valid for every admissible count are reported): rejected-while-closed, forwarded-while-open, wrong error identity, mock service used / not used, downstream invoked on a rejected call. Concurrent: 8 callers, histories of two-phase operations (admit, complete) recorded with a logical clock at the client boundary and checked with porcupine against the same machine (recovery infinite). distinct_nontrivial = distinct (threshold, regime, installation, outcome sequence) combinations + concurrent histories")
 	r.Meta("exhaustive", true)
 	r.Meta("assumptions", []string{
 		"the failure count the breaker resumes with after the recovery time is not specified by the property: the reference keeps it as an interval [0, threshold] until a success or enough failures collapse it",
@@ -175,7 +181,7 @@ func TestCheck(t *testing.T) {
 	})
 	for _, th := range []int{0, 1, 2, 5} {
 		for _, inst := range []install{ioOnly, whole, withMock} {
-			for _, regime := range []string{"infinite", "max-duration", "zero", "finite-gaps"} {
+			for _, regime := range []string{"infinite", "max-duration", "zero", "finite-gaps", "slow-calls"} {
 				th, inst, regime := th, inst, regime
 				r.Case(fmt.Sprintf("seq/threshold%d/%s/%s", th, inst, regime), func(c *h.Case) {
 					synctest.Test(t, func(t *testing.T) { seqCase(c, th, inst, regime) })
@@ -290,6 +296,13 @@ func seqCase(c *h.Case, th int, inst install, regime string) {
 			}
 			return 'S'
 		}}
+		if regime == "slow-calls" {
+			// forwarded calls take a good part of the recovery time before they fail (time-outs do):
+			// the open window starts when the call fails, not when it began
+			d.delay = func(n int64) time.Duration {
+				return []time.Duration{9 * time.Millisecond, 4 * time.Millisecond, 0, 10 * time.Millisecond, 25 * time.Millisecond}[(int(n)+len(seq)+int(seq[0]))%5]
+			}
+		}
 		cb := mkBreaker(th, recovery, inst)
 		client := newClient(cb, inst, d)
 		m := &ref{threshold: th, recovery: recovery}
@@ -299,7 +312,9 @@ func seqCase(c *h.Case, th int, inst install, regime string) {
 		// issue calls until the whole outcome sequence has been consumed or enough calls were made
 		for k := 0; k < L+th+6 && int(atomic.LoadInt64(&d.calls)) < len(seq); k++ {
 			checkCall(c, m, d, client, t0, inst, rep, sig)
-			if regime == "finite-gaps" {
+			if regime == "slow-calls" {
+				time.Sleep([]time.Duration{time.Millisecond, 0, 6 * time.Millisecond, 10*time.Millisecond - 1, 10 * time.Millisecond}[(k+len(seq))%5])
+			} else if regime == "finite-gaps" {
 				// gaps straddling the recovery time
 				time.Sleep([]time.Duration{0, 3 * time.Millisecond, 10*time.Millisecond - 1, 10 * time.Millisecond, 25 * time.Millisecond}[(k+len(seq)+int(seq[0]))%5])
 			} else {
